@@ -174,6 +174,43 @@ Theorem dns64_rfc_ttl_alone_refuted :
   /\ dns64_ttl None addrs consulted now = 3.
 Proof. exact dns64_rfc_alone_outlives_piece. Qed.
 
+(* The replies dns64 RELAYS (session 4; buildAResponseAsBasis of RFC 6147 5.1.6 and
+   handlePTR of 5.3.1): every relayed record carries the TTL the answer it was copied
+   from showed -- inside that cached answer's lifetime, never rounded up; a fresh one
+   unchanged -- the only TTL dns64 writes itself is the PTR translation's CNAME (600 s,
+   from configuration); every consulted answer, the gating AAAA answer included, bounds
+   the request tree, hence everything admitted under the tree's bound. *)
+Theorem dns64_relayed_inherits :
+  forall recs consulted now,
+    (forall i p, nth_error recs i = Some p ->
+       exists x, nth_error (dns64_relay_ttls recs now) i = Some x
+         /\ match p with
+            | PHit e => now < entry_end e ->
+                        0 <= x /\ x * second <= entry_end e - now /\ entry_end e - now < (x + 1) * second
+            | PFresh t _ => x = t
+            end)
+    /\ length (dns64_relay_ttls recs now) = length recs
+    /\ dns64_basis_reply recs now = dns64_relay_ttls recs now
+    /\ dns64_ptr_reply recs now = 600 :: dns64_relay_ttls recs now
+    /\ (forall p d, In p consulted -> piece_fold p = Some d -> ole (dns64_bound None consulted) d)
+    /\ (forall e, In (PHit e) consulted -> ole (dns64_bound None consulted) (entry_end e))
+    /\ (forall a p d, e_cut a = dns64_bound None consulted -> In p consulted -> piece_fold p = Some d ->
+          entry_end a <= d).
+Proof. exact dns64_relayed_inherits_l. Qed.
+
+(* ... but the A-basis reply itself is NOT inside the lifetime of the cached AAAA answer
+   that gated it (the statement's "replies composed from several cached pieces inherit
+   the shortest lifetime among the pieces", read with the gate as a piece): computed
+   witness, replayed on the Go code by corpus/C04/dns64relay.jsonl -- finding
+   dns64-abasis-gate (KNOWN_FINDINGS.txt; repair proposed in props/C04/fix2.patch). *)
+Theorem dns64_basis_outlives_gate_refuted :
+  let now := 4 * second in
+  now < entry_end basis_gate /\ now < entry_end basis_a
+  /\ dns64_basis_reply [PHit basis_a] now = [3598]
+  /\ 3598 * second > remaining basis_gate now
+  /\ dns64_bound None [PHit basis_gate; PHit basis_a] = Some (entry_end basis_gate).
+Proof. exact dns64_basis_outlives_gate. Qed.
+
 (* The denial rung inside a request tree (RFC 8198 proof index / subtree cut,
    Cache.lookupDenialProof / lookupNXDomainCut + boundRequestTo): a synthesised
    denial is served strictly inside its lifetime, the tree stays bound by its
@@ -206,3 +243,5 @@ Print Assumptions proof_no_floor.
 Print Assumptions dns64_composed_inherits_min.
 Print Assumptions dns64_rfc_ttl_alone_refuted.
 Print Assumptions denial_rung_inherits.
+Print Assumptions dns64_relayed_inherits.
+Print Assumptions dns64_basis_outlives_gate_refuted.
